@@ -46,8 +46,25 @@ def parse_event(e):
     return {'k': '?', 'raw': e}
 
 
-def records(lines_in, out):
-    return [Rec(k, lines_in[k], out[k] if k < len(out) else '') for k in range(len(lines_in))]
+def records(lines_in, out, sc=None):
+    recs = [Rec(k, lines_in[k], out[k] if k < len(out) else '') for k in range(len(lines_in))]
+    if sc is None or not any('_o' in op for op in sc.get('ops', ())) or len(sc['ops']) != len(recs):
+        return recs
+    # transmit-only passes were mixed in next to full passes (PropBase.mix_partial_passes): give the judges that reason with op indices the
+    # shape of the scenario as generated - one record per original op, the events of its passes in order, the state after the last one
+    grouped = []
+    for op, r in zip(sc['ops'], recs):
+        o = op.get('_o', r.k)
+        if grouped and grouped[-1].k == o:
+            g = grouped[-1]
+            g.events = g.events + r.events
+            g.status = r.status
+            if not (op.get('rx') is False):
+                g.toks, g.result, g.raw = r.toks, r.result, r.raw
+        else:
+            r.k = o
+            grouped.append(r)
+    return grouped
 
 
 def layer_cfg(sc, i=0):
